@@ -10,6 +10,8 @@
 //!   E         start destroy_database on a thread; it parks right before it removes the LOCK file
 //!   F         let it go on; it parks right before it removes the database directory
 //!   H         let it finish and report its result
+//!   Y<h>      like Z, but the handle's compaction thread is parked inside the merge loop of a table
+//!             compaction that follows a flush (hook point compact:loop)
 //!   I<h>      start DB::open for handle <h> on a thread; it parks inside FileSystem::lock_file between
 //!             opening the LOCK file and locking it (hook point lock:after_open)
 //!   L<h>      let that open go on and report its result
@@ -160,9 +162,28 @@ pub fn run_lock(line: &str) -> String {
     let mut dphase: u8 = 0; // gate the destroyer is parked at (0 = no destroyer running)
     // openers parked between opening and locking the LOCK file: thread name -> (parked, released)
     let openers: Arc<(Mutex<HashMap<String, (bool, bool)>>, Condvar)> = Arc::new((Mutex::new(HashMap::new()), Condvar::new()));
+    // table compaction gate: (armed, the compaction thread is parked, released)
+    let bgpark: Arc<(Mutex<(bool, bool, bool)>, Condvar)> = Arc::new((Mutex::new((false, false, false)), Condvar::new()));
     {
         let op2 = Arc::clone(&openers);
+        let bg2 = Arc::clone(&bgpark);
         raindb::verif_hooks::sched::install(Arc::new(move |point: &'static str| {
+            if point == "compact:loop" {
+                // the compaction thread of a handle parks once inside the merge loop of a table
+                // compaction when armed (step Y)
+                let (m, cv) = &*bg2;
+                let mut g = m.lock().unwrap();
+                if g.0 && !g.1 {
+                    g.1 = true;
+                    cv.notify_all();
+                    let deadline = Instant::now() + Duration::from_secs(30);
+                    while !g.2 && Instant::now() < deadline {
+                        g = cv.wait_timeout(g, Duration::from_millis(50)).unwrap().0;
+                    }
+                    g.0 = false;
+                }
+                return;
+            }
             if point != "lock:after_open" {
                 return;
             }
@@ -332,6 +353,62 @@ pub fn run_lock(line: &str) -> String {
                     }
                     let _ = closer.join();
                     *gated.rdb.lock().unwrap() = (false, false, false);
+                    out.push(if !wrote {
+                        "write-failed".to_string()
+                    } else if !parked {
+                        "notparked".to_string()
+                    } else if admitted {
+                        "admitted".to_string()
+                    } else {
+                        "excluded".to_string()
+                    });
+                }
+            },
+            b'Y' => match handles.remove(body) {
+                None => out.push("nohandle".to_string()),
+                Some(db) => {
+                    // overwrite the same keys until enough level-0 tables have piled up for a table
+                    // compaction (the follow-up of a flush) and its thread is parked inside the
+                    // merge loop; then close the handle: every open attempted before the close
+                    // has returned must be refused
+                    *bgpark.0.lock().unwrap() = (true, false, false);
+                    let mut wrote = true;
+                    let mut parked = false;
+                    for i in 0..60u8 {
+                        if db.put(WriteOptions::default(), vec![0xfc, i % 3], vec![i; 900]).is_err() {
+                            wrote = false;
+                            break;
+                        }
+                        let deadline = Instant::now() + Duration::from_millis(if i >= 20 { 300 } else { 20 });
+                        while !bgpark.0.lock().unwrap().1 && Instant::now() < deadline {
+                            std::thread::sleep(Duration::from_micros(200));
+                        }
+                        if bgpark.0.lock().unwrap().1 {
+                            parked = true;
+                            break;
+                        }
+                    }
+                    let closer = std::thread::Builder::new()
+                        .name("case-lock-closer".to_string())
+                        .spawn(move || drop(db))
+                        .unwrap();
+                    let mut admitted = false;
+                    let until = Instant::now() + Duration::from_millis(300);
+                    while parked && Instant::now() < until && !closer.is_finished() {
+                        if let Ok(db2) = DB::open(options(&fs)) {
+                            admitted = !closer.is_finished();
+                            drop(db2);
+                            break;
+                        }
+                        std::thread::sleep(Duration::from_millis(5));
+                    }
+                    {
+                        let (m, cv) = &*bgpark;
+                        m.lock().unwrap().2 = true;
+                        cv.notify_all();
+                    }
+                    let _ = closer.join();
+                    *bgpark.0.lock().unwrap() = (false, false, false);
                     out.push(if !wrote {
                         "write-failed".to_string()
                     } else if !parked {
